@@ -168,6 +168,40 @@ def build(ctx):
 
     obs.append(Obligation("schedule.length", "SinglePhaseReservoir.simulate returns only if len(schedule) == len(time); otherwise ValueError, raised before any attribute is written", length, [resv.SSIM], "SMT", rt_replay))
 
+    def ideal_length():
+        # both reservoir classes: IdealReservoir.simulate takes no schedule, so a call with one (of any length, positional or
+        # by keyword) must not return; in particular a schedule whose length differs from the time grid is rejected
+        f = ctx.engine.func(resv.ISIM)
+        Ls = tm.var("Ls", tm.I)
+        for how in ("positional", "keyword"):
+            def mk(how=how):
+                r = resv.make_reservoir(ctx, "IdealReservoir", None, c10.old_state(True)())
+                sch = resv.sched_arr(Ls)
+                return ([r, resv.time_arr(), sch], {}) if how == "positional" else ([r, resv.time_arr()], {"pressure_fracface": sch})
+            outs = [o for o in ctx.engine.run_paths(f, mk, pc=[tm.ge(resv.nt, tm.const(2)), tm.ge(resv.nx, tm.const(3)), tm.ge(Ls, tm.const(0)), tm.ne(Ls, resv.nt)]) if o.kind != "infeasible"]
+            for o in outs:
+                if o.kind == "return":
+                    return be.Verdict(be.REFUTED, "STRUCT", witness={"len_schedule": "!= len(time)", "passed": how}, detail=f"IdealReservoir.simulate(time, schedule) returns although len(schedule) != len(time) (schedule passed {how}): a schedule of the wrong length is accepted and ignored")
+                if o.heap["args"][0].writes:
+                    return be.Verdict(be.REFUTED, "FRAME", witness={}, detail="state written before the rejection")
+        return be.Verdict(be.PROVED, "STRUCT", detail="every path raises (the method has no schedule parameter), nothing written")
+
+    def ideal_length_replay(w):
+        import numpy as np
+        Ir = real(resv.RES + "IdealReservoir")
+        t_ = np.linspace(0, 1, 30) ** 2
+        for m_ in (29, 31, 3, 60):
+            for kw in (False, True):
+                r = Ir(20, 1000.0, 8000.0, None)
+                try:
+                    r.simulate(t_, pressure_fracface=np.full(m_, 1000.0)) if kw else r.simulate(t_, np.full(m_, 1000.0))
+                except Exception:  # noqa: BLE001
+                    continue
+                return {"reproduced": True, "input": {"class": "IdealReservoir", "len(time)": 30, "len(schedule)": m_, "keyword": kw}, "observed": "returned normally", "required": "an error"}
+        return {"reproduced": False}
+
+    obs.append(Obligation("schedule.length.ideal", "IdealReservoir.simulate never returns when it is handed a schedule whose length differs from the time grid (clean code: it takes no schedule at all), and writes nothing", ideal_length, [resv.ISIM], "STRUCT", ideal_length_replay))
+
     c10obs = {o.id: o for o in c10.build(ctx)}
     src = c10obs["before_simulate"]
     obs.append(Obligation("before_simulate", src.statement, src.run, src.functions, src.backend, rt_replay))
